@@ -33,12 +33,13 @@ type blk struct {
 }
 
 type hist struct {
-	r          *hx.Rng
-	n          *exh.Node
-	chain      []blk // blocks currently on the chain, heights 1..tip, with the script each was applied under
-	txSeed     uint64
-	lastDel    *blk
-	flushEvery bool
+	r             *hx.Rng
+	n             *exh.Node
+	chain         []blk // blocks currently on the chain, heights 1..tip, with the script each was applied under
+	txSeed        uint64
+	lastDel       *blk
+	flushEvery    bool
+	sameGenerator bool // the next built block uses the slot of the tip generator, one round later
 }
 
 func tipObs(n *exh.Node) *c05x.TipObs {
@@ -145,6 +146,11 @@ func (h *hist) randomBuild(allowChange bool) (exh.Build, *exh.Script, bool) {
 // build = randomBuild + NextValid under that script; avoid (if given) yields a block different from it.
 func (h *hist) build(allowChange bool, avoid *blk) blk {
 	bo, s, ch := h.randomBuild(allowChange)
+	if h.sameGenerator {
+		// sibling generated, N slots later, by the generator of the current tip: it contributes no new prevote/precommit, so a
+		// finality advance made by the deleted block is NOT re-established (the stored marker must stay where it is)
+		bo.SkipSlots, h.sameGenerator = 3, false
+	}
 	h.n.ABI.S = s
 	b := h.n.NextValid(bo)
 	if avoid != nil && bytes.Equal(b.Header.ID, avoid.b.Header.ID) {
@@ -334,13 +340,14 @@ func runHist(seed, idx uint64, gt uint32) *c05x.EHist {
 			d := h.del(tip, r.Bool(), false)
 			rec.Steps = append(rec.Steps, d)
 			afterDelete = d.Err == "ok" && h.lastDel != nil && c05x.Hex(h.lastDel.b.Header.ID) == d.ID
+			h.sameGenerator = afterDelete && raised && r.Intn(100) < 70
 			raised = false
 			continue
 		}
 		var x blk
 		removeTemp, reapply := r.Bool(), false
 		switch p := r.Intn(100); {
-		case afterDelete && p < 60: // sibling of the block just deleted
+		case afterDelete && (p < 60 || h.sameGenerator): // sibling of the block just deleted
 			x = h.build(true, h.lastDel)
 		case afterDelete && p < 80: // the very same block object again
 			x, removeTemp, reapply = *h.lastDel, true, true
